@@ -82,3 +82,12 @@ Section AccumGenProofs.
   Theorem gen_get_result_pure tot : gen_get_result V tot = (tot, tot).
   Proof. reflexivity. Qed.
 End AccumGenProofs.
+
+(* evaluate_area_for_error_estimates = AEstimate: the estimate evaluations (split / extend benefits, parent estimates) touch neither
+   the area value nor the container value nor the result (the generated identity is the verdict of the translator's fail-closed effect
+   analysis; an alias of area.value - seeded/C05 - or a write to a cell makes the translator reject the source) *)
+Theorem gen_estimate_is_AEstimate (V : Type) (vzero : V) (vadd : V -> V -> V) (vopp : V -> V) (s : astate V) (id : Z) :
+  let s' := apply_event V vzero vadd vopp s (AEstimate id) in
+  gen_evaluate_area_for_error_estimates V (area_get V id (st_areas s)) (Some (st_cont s)) (st_total s)
+  = (area_get V id (st_areas s'), Some (st_cont s'), st_total s').
+Proof. reflexivity. Qed.
